@@ -105,6 +105,7 @@ func H_HelperAtomic() {
 	}
 	var res resource.Resource
 	var err error
+	ready := false
 	checkOwner := true
 	op := verif.Choose("helper", 5)
 	switch op {
@@ -138,7 +139,7 @@ func H_HelperAtomic() {
 	case 4:
 		verif.Case("Teardown")
 		mutKind = 6
-		_, err = st.Teardown(ctx, ptr(), state.WithTeardownOwner(callerOwner))
+		ready, err = st.Teardown(ctx, ptr(), state.WithTeardownOwner(callerOwner))
 	}
 	core.Env = nil
 	ws := core.CallerWrites()
@@ -165,6 +166,7 @@ func H_HelperAtomic() {
 			verif.Assert(!last.Metadata().Finalizers().Has("f"), "RemoveFinalizer without write: finalizer already absent")
 		case 6:
 			verif.Assert(last.Metadata().Phase() == resource.PhaseTearingDown, "Teardown without write: already tearing down")
+			verif.Assert(ready == last.Metadata().Finalizers().Empty(), "the result of Teardown reflects the value it was based on (finalizers of the tearing-down resource it found)")
 		case 0, 1:
 			verif.Assert(applied(last, last), "no write only if the mutation changes nothing")
 		}
@@ -196,6 +198,7 @@ func H_HelperAtomic() {
 		verif.Assert(!w.After.Metadata().Finalizers().Has("f") && w.After.Metadata().Finalizers().Has("h") == w.Before.Metadata().Finalizers().Has("h"), "finalizer removed from the then-current set")
 	case 6:
 		verif.Assert(w.After.Metadata().Phase() == resource.PhaseTearingDown && tres.SpecOf(w.After) == tres.SpecOf(w.Before), "teardown marks the then-current value")
+		verif.Assert(ready == w.After.Metadata().Finalizers().Empty(), "the result of Teardown reflects the committed value (ready iff it carries no finalizer)")
 	}
 	if core.EnvWrites > 0 && core.CallerUpdates > 1 {
 		verif.Cover("retried after interference")
